@@ -425,6 +425,15 @@ theorem eff_legal (cfg : Cfg) (s : State) (hw : WF s) (op : Op) : Legal s (eff c
     split
     · split <;> constructor <;> simp
     · exact legal_bad s
+  case newSub vals => constructor <;> simp
+  case asArray a =>
+    split
+    · rename_i ao h
+      split
+      · constructor <;> simp
+      · constructor <;> simp
+        exact ⟨a, ao, h, rfl, id⟩
+    · exact legal_bad s
   case fieldVal f =>
     split
     · constructor <;> simp
